@@ -11,6 +11,28 @@ CHECKS = {
                      'cos/sin/sqrt uninterpreted; libstdc++ vector/string code is the real code, operator new never fails; error text formatting stubbed.',
                 ref='DESIGN.md §2 C01', tech=TECH_SMT),
 }
+CHECKS.update({
+    'C02': dict(text='QasmSimulator::measure from an arbitrary state: outcome = (draw < P(1)) with P(1) the summed squared norms, exactly one draw, '
+                     'other branch exactly zero, survivors divided by sqrt(P(outcome)), flag set; all states and draws per (n,q), n<=3 quick / 4 thorough.',
+                note='FP abstracted to commutative uninterpreted functions, comparisons exact; RNG draw supplied by the harness; evaluator-side storing of the bit not covered yet.',
+                ref='DESIGN.md §2 C02', tech=TECH_SMT),
+    'C03': dict(text='Inductive step: allocateQubit from an arbitrary n-qubit state (low half kept bit-for-bit, high half zero, index n, flags), and '
+                     'measure/reset/gates keep 2^n amplitudes with every access in bounds, also for out-of-range indices (refused).',
+                note='unit norm within tolerance is NOT decided (follows on paper from C01/C02/C04); evaluator handle bookkeeping pending; heap zero-initialised in the model.',
+                ref='DESIGN.md §2 C03', tech=TECH_SMT),
+    'C04': dict(text='QasmSimulator::reset from an arbitrary (entangled, unmeasured) state must be the measure-then-flip channel: sampled outcome, '
+                     'normalised projection moved to target=0; a reset that draws nothing is only accepted when one branch is empty.',
+                note='locality of the reduced state follows on paper from the channel form; FP abstracted; found and fixed: post-selecting reset (8c32c2f).',
+                ref='DESIGN.md §2 C04', tech=TECH_SMT),
+    'C05': dict(text='Every logging site of the simulator with the real std::string code: exactly one byte-exact line per performed operation, none for refused '
+                     'ones or with logging off, order kept, getQasm = header + qreg/creg + ops, two-qubit operands distinct; every operand index in -1..n.',
+                note='control flow is concrete per query (kind, operands, logging enumerated); angle text replaced by a token; replay on an independent interpreter and CLI file output outside. Found and fixed: cx(q,q) (94ddccb).',
+                ref='DESIGN.md §2 C05', tech=TECH_SAT),
+    'C06': dict(text='Simulator-level flag state machine from arbitrary symbolic flags: an operation is refused exactly when an operand is marked measured, '
+                     'refusal leaves state/log/RNG untouched, measure marks, reset clears, other flags unchanged.',
+                note='evaluator access paths (array element, parameter, field) not covered yet; FP havoc.',
+                ref='DESIGN.md §2 C06', tech=TECH_SAT),
+})
 NA = {}
 def main():
     props = [json.loads(l) for l in open(os.path.join(here, 'properties.jsonl'))]
